@@ -1,9 +1,10 @@
-import KitModel.Runner
-import Std.Data.HashSet
+import KitModel.RunnerSim
 /-!
 Driver for property C12: `kitdrv C12` decides *trace inclusion*.  The harness sends the observable
 event log of one real execution (`begin …`, then one `ev …` per line, then `end`); the driver keeps
-the set of model states compatible with the log so far, closed under internal (τ) steps, and
+the set of model states compatible with the log so far, closed under internal (τ) steps — the
+functions `Sim.closure` / `Sim.advance` of `KitModel/RunnerSim.lean`, whose fold over the events is
+`Sim.run`, proved sound in `KitProofs/Props/C12.lean` (`accepts_sound`) — and
 answers `ok n=<states>` or `reject …` (no model state can perform the event).
 
 Observable events → candidate labels:
@@ -14,32 +15,6 @@ Observable events → candidate labels:
 -/
 namespace Driver.C12
 open Kit Kit.Runner
-
-/-- closure of a state set under τ steps (worklist; `seen` is the result). -/
-partial def closeUnder {σ α : Type} [BEq σ] [Hashable σ] (step : σ → α → Option σ) (taus : σ → List α)
-    (seen : Std.HashSet σ) (work : List σ) : Std.HashSet σ :=
-  match work with
-  | [] => seen
-  | s :: rest =>
-    let (seen', new) := (taus s).foldl (fun (acc : Std.HashSet σ × List σ) a =>
-      match step s a with
-      | some s' => if acc.1.contains s' then acc else (acc.1.insert s', s' :: acc.2)
-      | none => acc) (seen, [])
-    closeUnder step taus seen' (new ++ rest)
-
-def closure {σ α : Type} [BEq σ] [Hashable σ] (step : σ → α → Option σ) (taus : σ → List α)
-    (ss : List σ) : List σ :=
-  let seen := ss.foldl (fun acc s => acc.insert s) (Std.HashSet.emptyWithCapacity 64)
-  (closeUnder step taus seen seen.toList).toList
-
-/-- one observable event: every state may try each candidate label; `pre` filters states first. -/
-def advance {σ α : Type} [BEq σ] [Hashable σ] (step : σ → α → Option σ) (taus : σ → List α)
-    (ss : List σ) (pre : σ → Bool) (cands : List α) : List σ :=
-  let nexts := ss.foldl (fun acc s =>
-    if pre s then cands.foldl (fun acc a => match step s a with
-      | some s' => s' :: acc
-      | none => acc) acc else acc) []
-  closure step taus nexts
 
 def parseRet (v : String) : Option Ret :=
   if v == "nil" then some .nil
@@ -134,7 +109,7 @@ def step (st : St) (line : String) : St × String :=
   | "begin" =>
     match l.get? "mode" with
     | some "rm" =>
-      let ss := closure RM.step RM.taus [({} : RM)]
+      let ss := rmSim.closure [({} : RM)]
       ({ w := .rm ss }, s!"ok n={ss.length}")
     | some "rcm" =>
       let grace : Option Nat := (l.get? "grace").bind String.toNat?
@@ -143,7 +118,7 @@ def step (st : St) (line : String) : St × String :=
         | some n => n == 1
         | none => Kit.Generated.C12.addCloserRechecksClosingUnderLock
       let cfg : Cfg := { grace := grace, recheck := recheck }
-      let ss := closure (RCM.step cfg) RCM.taus [({} : RCM)]
+      let ss := (rcmSim cfg).closure [({} : RCM)]
       ({ w := .rcm cfg ss }, s!"ok n={ss.length}")
     | _ => ({ w := .dead }, "error bad-mode")
   | "ev" =>
@@ -154,7 +129,7 @@ def step (st : St) (line : String) : St × String :=
       match rmEvent l with
       | none => ({ w := .dead }, s!"error bad-event {line.trimAscii.toString}")
       | some (pre, cands) =>
-        let ss' := advance RM.step RM.taus ss pre cands
+        let ss' := rmSim.advance ss (pre, cands)
         if ss'.isEmpty then
           ({ w := .dead }, s!"reject n={ss.length} states={summary (ss.map showRM)}")
         else ({ w := .rm ss' }, s!"ok n={ss'.length}")
@@ -162,7 +137,7 @@ def step (st : St) (line : String) : St × String :=
       match rcmEvent l with
       | none => ({ w := .dead }, s!"error bad-event {line.trimAscii.toString}")
       | some (pre, cands) =>
-        let ss' := advance (RCM.step cfg) RCM.taus ss pre cands
+        let ss' := (rcmSim cfg).advance ss (pre, cands)
         if ss'.isEmpty then
           ({ w := .dead }, s!"reject n={ss.length} states={summary (ss.map showRCM)}")
         else ({ w := .rcm cfg ss' }, s!"ok n={ss'.length}")
